@@ -38,6 +38,8 @@ func strategyOf(p string) string {
 // patternSource yields the i-th pattern of a run: corpus, mutated corpus, or grammar.
 func patternSource(r *RNG, i int, o GenOpts) string {
 	switch {
+	case i%8 == 5:
+		return MutateAST(r, corpusPatterns[r.Intn(len(corpusPatterns))])
 	case i%4 == 0:
 		return corpusPatterns[r.Intn(len(corpusPatterns))]
 	case i%4 == 1:
